@@ -57,6 +57,10 @@ def rel_ok(val, ref, tol=1e-9):
     return abs(val - ref) <= tol * max(abs(ref), 1e-12)
 
 
+def hl_(d):
+    return math.sqrt(sum(x * x for x in d))
+
+
 def work(args):
     seed, n_, idx = args
     from .. import impl
@@ -77,6 +81,18 @@ def work(args):
                 r = R.choice([0.3, 0.5, 1.0, 2.0, 3.75, 7.5]) * R.choice([1.0, 1.0, 0.97])
                 n = R.randint(3, 24)
                 rec.update(d=d, r=r, n=n, dcls=dcls)
+                if R.random() < 0.5:
+                    # a decoy call just before, with ALMOST the same axis (tilted by 1e-6 .. 1e-5 rad, or the opposite direction),
+                    # another centre and radius, result discarded: nothing of it may leak into the call under test
+                    tl = R.choice([1e-6, 3e-6, 1e-5]) * hl_(d)
+                    jj = R.randrange(3)
+                    d2 = tuple((-x if R.random() < 0.2 else x) for x in d)
+                    d2 = tuple(x + (tl if t == jj else 0.0) for t, x in enumerate(d2 if all(a == -b for a, b in zip(d2, d)) or d2 == tuple(d) else d))
+                    try:
+                        getattr(g3, kind)(*((Point(c[0] + 1, c[1], c[2] - 2), Vector(*d2), 0.9 * r, n) if kind == 'Circle' else (Point(c[0] + 1, c[1], c[2] - 2), 0.9 * r, Vector(*d2), n)))
+                    except Exception:
+                        pass
+                    rec['decoy'] = d2
                 cp, dv = Point(*c), Vector(*d)
                 snap = (impl.snapshot(cp), impl.snapshot(dv))
                 hl = nrm(d)
@@ -229,27 +245,54 @@ def search(ctx):
     run(ctx, scale=2)
 
 
+def on_shape(kind, pts, c, d, r):
+    """every vertex on the specified circle / cylinder / cone (height 0 or |d| along the axis, distance r from it; the apex on it)"""
+    hl = nrm(d)
+    u = tuple(x / hl for x in d)
+    for p in pts:
+        w = tuple(a - b for a, b in zip(p, c))
+        t = sum(a * b for a, b in zip(w, u))
+        rad = nrm(tuple(a - t * b for a, b in zip(w, u)))
+        tol = 1e-9 * max(1.0, r, hl)
+        if kind == 'Circle':
+            ok = abs(t) <= tol and abs(rad - r) <= tol
+        elif kind == 'Cylinder':
+            ok = (abs(t) <= tol or abs(t - hl) <= tol) and abs(rad - r) <= tol
+        else:
+            ok = (abs(t) <= tol and abs(rad - r) <= tol) or (abs(t - hl) <= tol and rad <= tol)
+        if not ok:
+            print('vertex', p, 'is not on the specified', kind, '(height %r along the axis, distance %r from it)' % (t, rad))
+            return False
+    return True
+
+
 def replay(ctx, case):
-    import Geometry3D as g3
     from .. import impl
+    import Geometry3D as g3
     from ..impl import Point, Vector
     c = case['case']
     kind = c['kind']
+    if c.get('decoy'):      # the decoy call that preceded the call under test
+        cc, d2 = c['c'], c['decoy']
+        try:
+            getattr(g3, kind)(*((Point(cc[0] + 1, cc[1], cc[2] - 2), Vector(*d2), 0.9 * c['r'], c['n']) if kind == 'Circle' else (Point(cc[0] + 1, cc[1], cc[2] - 2), 0.9 * c['r'], Vector(*d2), c['n'])))
+        except Exception:
+            pass
     try:
         if kind == 'Circle':
             o = g3.Circle(Point(*c['c']), Vector(*c['d']), c['r'], c['n'])
             print('Circle ->', len(o.points), 'vertices, area', o.area(), 'closed form', A(c['n'], c['r']))
-            ok = len(o.points) == c['n'] and rel_ok(o.area(), A(c['n'], c['r']))
+            ok = len(o.points) == c['n'] and rel_ok(o.area(), A(c['n'], c['r'])) and on_shape(kind, [(p.x, p.y, p.z) for p in o.points], c['c'], c['d'], c['r'])
         elif kind == 'Cylinder':
             o = g3.Cylinder(Point(*c['c']), c['r'], Vector(*c['d']), c['n'])
             ref = A(c['n'], c['r']) * nrm(c['d'])
             print('Cylinder -> counts', len(o.point_set), len(o.segment_set), len(o.convex_polygons), 'volume', o.volume(), 'closed form', ref)
-            ok = rel_ok(o.volume(), ref) and len(o.point_set) == 2 * c['n']
+            ok = rel_ok(o.volume(), ref) and len(o.point_set) == 2 * c['n'] and on_shape(kind, [(p.x, p.y, p.z) for p in o.point_set], c['c'], c['d'], c['r'])
         elif kind == 'Cone':
             o = g3.Cone(Point(*c['c']), c['r'], Vector(*c['d']), c['n'])
             ref = A(c['n'], c['r']) * nrm(c['d']) / 3
             print('Cone -> volume', o.volume(), 'closed form', ref)
-            ok = rel_ok(o.volume(), ref)
+            ok = rel_ok(o.volume(), ref) and on_shape(kind, [(p.x, p.y, p.z) for p in o.point_set], c['c'], c['d'], c['r'])
         elif kind == 'Sphere':
             o = g3.Sphere(Point(*c['c']), c['r'], c['n1'], c['n2'])
             ref = sphere_refs(c['r'], c['n1'], c['n2'])[0]
